@@ -51,7 +51,8 @@ enum IKind
   I_OBS_COUNTER_DOUBLE,
   I_OBS_UPDOWN_LONG,
   I_OBS_GAUGE_LONG,
-  I_OBS_GAUGE_DOUBLE
+  I_OBS_GAUGE_DOUBLE,
+  I_OBS_UPDOWN_DOUBLE
 };
 const int kSlots = 3;
 bool is_gauge(int k)
@@ -60,7 +61,7 @@ bool is_gauge(int k)
 }
 bool is_dbl(int k)
 {
-  return k == I_OBS_COUNTER_DOUBLE || k == I_OBS_GAUGE_DOUBLE;
+  return k == I_OBS_COUNTER_DOUBLE || k == I_OBS_GAUGE_DOUBLE || k == I_OBS_UPDOWN_DOUBLE;
 }
 
 // What callback (instrument i, slot s) reports at its n-th invocation (n from 0).
@@ -413,6 +414,9 @@ void body(const Case &c)
           break;
         case I_OBS_GAUGE_LONG:
           w.instrs.push_back(w.meter->CreateInt64ObservableGauge(n));
+          break;
+        case I_OBS_UPDOWN_DOUBLE:
+          w.instrs.push_back(w.meter->CreateDoubleObservableUpDownCounter(n));
           break;
         default:
           w.instrs.push_back(w.meter->CreateDoubleObservableGauge(n));
@@ -803,7 +807,7 @@ void generate(const std::string &, Rng &wl, Rng &fl, Case &c)
     c.set("ninstr", ninstr);
     for (int i = 0; i < ninstr; ++i)
     {
-      c.set(fmt("itype%d", i).c_str(), (int64_t)wl.below(5));
+      c.set(fmt("itype%d", i).c_str(), (int64_t)wl.below(6));
       c.set(fmt("initial_cb%d", i).c_str(), (int64_t)wl.range(0, 7));
     }
     c.stratum = "observable";
